@@ -390,9 +390,16 @@ def rule_arg_guard(ctx, prog, chk):
     return n
 
 
+SIMFAM = re.compile(r"^bn_mxp_sim(_\w+)?$")
+
+
 def analyse(ctx, prog, chk):
     chk.used_program(prog)
-    return {"gen": rule_gen_post(ctx, prog, chk), "mxp": rule_mxp_sib(ctx, prog, chk), "arg": rule_arg_guard(ctx, prog, chk),
+    from .. import expsib
+    simfam = [fn for fn in prog.all if SIMFAM.match(base(fn)) and (fn.rfile.startswith("src/bn/") or "selftest" in fn.file)]
+    # handing an exponent to any bn_mxp sibling delegates its sign (the 4-parameter forms are held to MXP-SIB)
+    nsim = expsib.rule_sm_sign(ctx, prog, chk, simfam, MXP, rule_name="MXP-SIM-SIGN", only_named={"b", "e"})
+    return {"simsign": nsim, "gen": rule_gen_post(ctx, prog, chk), "mxp": rule_mxp_sib(ctx, prog, chk), "arg": rule_arg_guard(ctx, prog, chk),
             "pipe": rule_prime_pipe(ctx, prog, chk),
             "bits": __import__("relic_sa.expsib", fromlist=["x"]).rule_loop_bits(ctx, prog, chk, [fn for fn in prog.all if re.match(r"^bn_mxp(_\w+)?$", base(fn)) and (fn.rfile.startswith("src/bn/") or "selftest" in fn.file)])}
 
@@ -404,6 +411,7 @@ def selfcheck(ctx, prog, chk):
 def run(ctx, chk):
     c = analyse(ctx, ctx.program("BASE"), chk)
     chk.floor("GEN-POST", "generator obligations", c["gen"], 5)
+    chk.floor("MXP-SIM-SIGN", "exponents of the simultaneous exponentiations", c["simsign"], 4)
     chk.floor("MXP-SIB", "exponentiation siblings (2 obligations each)", c["mxp"], 6)
     chk.floor("ARG-GUARD", "guard obligations", c["arg"], 4)
     chk.floor("LOOP-BITS", "bit scans of exponents", c["bits"], 2)
